@@ -61,6 +61,7 @@ int (*g_yield_hook)(void);
 void sim_point(const char *file, int line, const volatile void *addr, int kind)
 {
     if (g_atomic_hook) g_atomic_hook(file, line, addr, kind);
+    g_simpt_fresh = 1;          /* tsan variant: the runtime call that follows belongs to this scheduling point */
 }
 
 unsigned g_solo_yields;
